@@ -362,4 +362,172 @@ example : ∃ p : RParams ℝ, p.chgK = true ∧ 0 < p.nsteps ∧ 0 < p.nstages 
   ⟨{ kind := .harmonic, widths := [1], per := [none], wrapC := [0], chgK := true, startK := 1, targetK := 5,
      lambdaExp := 1, nsteps := 4, nstages := 3, lowerK := 1, upperK := 1 }, by simp⟩
 
+
+/-! ## ABMD ratchet and histogram restraint (CvModel/Ratchet.lean) -/
+
+namespace Ratchet
+open Cv.Ratchet
+
+/-- sign of the biased direction -/
+noncomputable def sgn (p : AbmdParams ℝ) : ℝ := if p.decreasing then -1 else 1
+
+private lemma sign_eq (p : AbmdParams ℝ) : (if p.decreasing then (-1.0 : ℝ) else 1.0) = sgn p := by
+  unfold sgn; split_ifs <;> norm_num
+
+private lemma abmdStep_some (p : AbmdParams ℝ) (r x : ℝ) :
+    abmdStep p (some r) x =
+      if (x - r) * sgn p > 0 then (some (if (r - p.stopping) * sgn p ≤ 0 then x else r), 0, 0)
+      else (some r, 1 / 2 * p.k * ((x - r) * sgn p) * ((x - r) * sgn p), -sgn p * p.k * ((x - r) * sgn p)) := by
+  unfold abmdStep
+  simp only [sign_eq, lit_zero, lit_half]
+
+/-- **closed form of the ratchet**: with reference `r`, energy `½ k min(0, s (x − r))²` and force `−k s min(0, s (x − r))·(−1)…`,
+    i.e. nothing when the variable is ahead of the reference, a harmonic spring pulling it back to the reference otherwise -/
+theorem abmd_closed_form (p : AbmdParams ℝ) (r x : ℝ) :
+    let out := abmdStep p (some r) x
+    out.2.1 = 0.5 * p.k * (min 0 ((x - r) * sgn p)) ^ 2 ∧
+    out.2.2 = -(sgn p * p.k * min 0 ((x - r) * sgn p)) := by
+  intro out
+  show (abmdStep p (some r) x).2.1 = _ ∧ (abmdStep p (some r) x).2.2 = _
+  rw [abmdStep_some, lit_half]
+  by_cases h : (x - r) * sgn p > 0
+  · rw [if_pos h, min_eq_left (le_of_lt h)]
+    constructor <;> simp
+  · rw [if_neg h, min_eq_right (not_lt.1 h)]
+    constructor <;> ring
+
+/-- the force is minus the derivative of the energy (behind the reference, where the energy is not flat) -/
+theorem abmd_force_deriv (p : AbmdParams ℝ) (r x : ℝ) (hb : (x - r) * sgn p < 0) :
+    HasDerivAt (fun y => (abmdStep p (some r) y).2.1) (-(abmdStep p (some r) x).2.2) x := by
+  have hd : HasDerivAt (fun y : ℝ => (y - r) * sgn p) (sgn p) x := by
+    simpa using ((hasDerivAt_id x).sub_const r).mul_const (sgn p)
+  have h2 : HasDerivAt (fun y : ℝ => 1 / 2 * p.k * (((y - r) * sgn p) * ((y - r) * sgn p)))
+      (1 / 2 * p.k * (sgn p * ((x - r) * sgn p) + (x - r) * sgn p * sgn p)) x :=
+    (hd.mul hd).const_mul _
+  have hopen : IsOpen {y : ℝ | (y - r) * sgn p < 0} :=
+    isOpen_lt (by fun_prop) continuous_const
+  have hev : (fun y => (abmdStep p (some r) y).2.1) =ᶠ[nhds x]
+      (fun y : ℝ => 1 / 2 * p.k * (((y - r) * sgn p) * ((y - r) * sgn p))) := by
+    filter_upwards [hopen.mem_nhds hb] with y hy
+    have hy' : ¬ (y - r) * sgn p > 0 := not_lt.2 (le_of_lt hy)
+    rw [abmdStep_some, if_neg hy']
+    ring
+  refine (h2.congr_of_eventuallyEq hev).congr_deriv ?_
+  rw [abmdStep_some, if_neg (not_lt.2 (le_of_lt hb))]
+  ring
+
+/-- the reference only moves forward: it follows the variable when the variable is ahead and the reference has not
+    passed the stopping value, and never moves otherwise -/
+theorem abmd_reference_step (p : AbmdParams ℝ) (r x : ℝ) :
+    (abmdStep p (some r) x).1 =
+      some (if (x - r) * sgn p > 0 ∧ (r - p.stopping) * sgn p ≤ 0 then x else r) := by
+  rw [abmdStep_some]
+  by_cases h : (x - r) * sgn p > 0
+  · rw [if_pos h]; simp only [h, true_and]
+  · rw [if_neg h]; simp only [h, false_and, if_false]
+
+theorem abmd_reference_monotone (p : AbmdParams ℝ) (r x r' : ℝ) (h : (abmdStep p (some r) x).1 = some r') :
+    0 ≤ (r' - r) * sgn p := by
+  rw [abmd_reference_step] at h
+  have h' := Option.some.inj h
+  subst h'
+  split_ifs with hc
+  · exact le_of_lt hc.1
+  · simp
+
+/-- the first update takes the current value as reference: no energy, no force -/
+theorem abmd_first_step (p : AbmdParams ℝ) (x : ℝ) : abmdStep p none x = (some x, 0, 0) := by
+  unfold abmdStep
+  simp only [sub_self, zero_mul, lit_zero, lt_irrefl, if_false, mul_zero]
+
+/-- derivative of one Gaussian kernel term with respect to the value it is centred on -/
+private lemma hasDerivAt_kernel (p : HistRParams ℝ) (n i : Nat) (y0 : ℝ) (hs : p.sigma ≠ 0) :
+    HasDerivAt (fun y => kernel p n y i)
+      (kernel p n y0 i * ((gridPoint p i - y0) / (p.sigma * p.sigma))) y0 := by
+  unfold kernel
+  simp only [lit_one, lit_two, prim_exp]
+  set g := gridPoint p i
+  have hd : HasDerivAt (fun y : ℝ => g - y) (-1) y0 := by
+    simpa using (hasDerivAt_id y0).const_sub g
+  have hu : HasDerivAt (fun y : ℝ => -1 * (g - y) * (g - y) / (2 * p.sigma * p.sigma))
+      ((g - y0) / (p.sigma * p.sigma)) y0 := by
+    have h1 := (((hd.mul hd).const_mul (-1 : ℝ)).div_const (2 * p.sigma * p.sigma))
+    have hf : (fun y : ℝ => -1 * (g - y) * (g - y) / (2 * p.sigma * p.sigma)) =
+        fun y : ℝ => -1 * ((g - y) * (g - y)) / (2 * p.sigma * p.sigma) := by
+      funext y; ring
+    rw [hf]
+    refine h1.congr_deriv ?_
+    field_simp
+    ring
+  refine (hu.exp.const_mul _).congr_deriv ?_
+  ring
+
+/-- histogram restraint: the energy is half the (size-scaled) force constant times the squared deviation of the
+    smeared histogram from the reference -/
+theorem histr_energy (p : HistRParams ℝ) (xs : List ℝ) :
+    histREnergy p xs = 0.5 * (p.k * (xs.length : ℝ)) *
+      ((List.zipWith (· - ·) (histogram p xs) p.ref).map (fun v => v * v)).sum := by
+  unfold histREnergy
+  simp only [foldl_add_map_real, lit_zero, zero_add]
+
+/-- it vanishes, with its forces, when the histogram equals the reference -/
+theorem histr_zero_at_reference (p : HistRParams ℝ) (xs : List ℝ) (h : histogram p xs = p.ref) (j : Nat) :
+    histREnergy p xs = 0 ∧ histRForce p xs j = 0 := by
+  have hz : ∀ l : List ℝ, List.zipWith (· - ·) l l = List.replicate l.length 0 := by
+    intro l
+    induction l with
+    | nil => rfl
+    | cons a l ih => simp [List.replicate_succ]
+  constructor
+  · rw [histr_energy, h, hz, lit_half]
+    simp
+  · unfold histRForce
+    simp only [h, hz, foldl_add_map_real, lit_zero, zero_add]
+    apply List.sum_eq_zero
+    intro v hv
+    obtain ⟨i, -, rfl⟩ := List.mem_map.1 hv
+    have : (List.replicate p.ref.length (0 : ℝ)).getD i 0 = 0 := by
+      rw [List.getD_eq_getElem?_getD, List.getElem?_replicate]
+      split_ifs <;> rfl
+    rw [this]
+    simp only [mul_zero, zero_mul]
+
+/-- the force on the j-th value is minus the derivative of the energy with respect to that value -/
+theorem histr_force_deriv (p : HistRParams ℝ) (xs : List ℝ) (j : Nat) (hj : j < xs.length) (hs : p.sigma ≠ 0)
+    (hr : p.ref.length = p.nbins) :
+    HasDerivAt (fun y => histREnergy p (xs.set j y)) (-(histRForce p xs j)) (xs.getD j 0) := by
+  set y0 := xs.getD j 0 with hy0
+  -- bins as functions of the replaced value
+  have hbin : ∀ i, HasDerivAt (fun y => ((xs.set j y).map fun x => kernel p xs.length x i).sum)
+      (kernel p xs.length y0 i * ((gridPoint p i - y0) / (p.sigma * p.sigma))) y0 := fun i =>
+    hasDerivAt_sum_map_set (fun x => kernel p xs.length x i) _ y0 (hasDerivAt_kernel p xs.length i y0 hs) xs j hj
+  have hE := (hasDerivAt_sum_sq_zipWith (fun i y => ((xs.set j y).map fun x => kernel p xs.length x i).sum) _ y0 hbin
+    (List.range p.nbins) p.ref).const_mul (1 / 2 * (p.k * (xs.length : ℝ)))
+  have hfun : (fun y => histREnergy p (xs.set j y)) = fun y => 1 / 2 * (p.k * (xs.length : ℝ)) *
+      ((List.zipWith (· - ·) ((List.range p.nbins).map fun i => ((xs.set j y).map fun x => kernel p xs.length x i).sum)
+        p.ref).map (fun v => v * v)).sum := by
+    funext y
+    rw [histr_energy, lit_half]
+    unfold histogram
+    simp only [foldl_add_map_real, lit_zero, zero_add, List.length_set]
+  rw [hfun]
+  refine hE.congr_deriv ?_
+  have hset : xs.set j y0 = xs := by
+    rw [hy0, List.getD_eq_getElem?_getD, List.getElem?_eq_getElem hj, Option.getD_some]
+    exact List.set_getElem_self hj
+  unfold histRForce histogram
+  simp only [foldl_add_map_real, lit_zero, lit_one, zero_add, hset]
+  rw [map_range_getD_zipWith (fun i => (xs.map fun x => kernel p xs.length x i).sum)
+    (fun d i => p.k * (xs.length : ℝ) * d * kernel p xs.length y0 i * (-1 * (gridPoint p i - y0) / (p.sigma * p.sigma)))
+    p.ref p.nbins hr]
+  rw [zipWith_sum_const_mul
+    (fun i r => 2 * ((xs.map fun x => kernel p xs.length x i).sum - r) *
+      (kernel p xs.length y0 i * ((gridPoint p i - y0) / (p.sigma * p.sigma))))
+    (fun i r => p.k * (xs.length : ℝ) * ((xs.map fun x => kernel p xs.length x i).sum - r) * kernel p xs.length y0 i *
+      (-1 * (gridPoint p i - y0) / (p.sigma * p.sigma)))
+    (-(1 / 2 * (p.k * (xs.length : ℝ)))) (fun i r => by ring) (List.range p.nbins) p.ref]
+  ring
+
+end Ratchet
+
 end Cv.C06
